@@ -26,6 +26,10 @@ fn main() {
         eprintln!("usage: vsim <engine> [options]");
         std::process::exit(2);
     }
+    if args[1] != "dbgtok" {
+        // the subject's debug mode prints to descriptor 1; the harness keeps the original for itself
+        harness::redirect_stdout();
+    }
     install_panic_hook();
     let opts = parse_opts(&args[2..]);
     let exit = match args[1].as_str() {
@@ -45,12 +49,12 @@ fn main() {
             let mode = toksim::mode_of(opts.extra.get("mode").map(|s| s.as_str()).unwrap_or("C"));
             let mut tok = sudachi::analysis::stateful_tokenizer::StatefulTokenizer::create(b.dict.clone(), true, mode);
             tok.reset().push_str(&text);
-            println!("{:?}", tok.do_tokenize());
+            crate::outln!("{:?}", tok.do_tokenize());
             let mut l = sudachi::analysis::mlist::MorphemeList::empty(b.dict.clone());
             l.collect_results(&mut tok).unwrap();
             for m in l.iter() {
-                println!("{} {} wid={:?}", m.begin(), m.end(), m.word_id());
-                println!("  {:?}", m.surface());
+                crate::outln!("{} {} wid={:?}", m.begin(), m.end(), m.word_id());
+                crate::outln!("  {:?}", m.surface());
             }
             0
         }
@@ -60,7 +64,7 @@ fn main() {
             let runs = only.map(|o| o + 1).unwrap_or(opts.runs as usize);
             match pygen::generate(opts.seed, runs, std::path::Path::new(&out), only) {
                 Ok(n) => {
-                    println!("pygen: {} scripts, {} ops -> {}", opts.runs, n, out);
+                    crate::outln!("pygen: {} scripts, {} ops -> {}", opts.runs, n, out);
                     0
                 }
                 Err(e) => {
@@ -75,7 +79,7 @@ fn main() {
             let runs = only.map(|o| o + 1).unwrap_or(opts.runs as usize);
             match cligen::generate(opts.seed, runs, std::path::Path::new(&out), only) {
                 Ok(n) => {
-                    println!("cligen: {} cases -> {}", n, out);
+                    crate::outln!("cligen: {} cases -> {}", n, out);
                     0
                 }
                 Err(e) => {
@@ -88,7 +92,7 @@ fn main() {
             let out = opts.extra.get("out").cloned().unwrap_or_else(|| "/verif/work/bsink".to_string());
             match buildgen::generate(opts.seed, opts.runs as usize, std::path::Path::new(&out)) {
                 Ok(n) => {
-                    println!("buildgen: {} worlds -> {}", n, out);
+                    crate::outln!("buildgen: {} worlds -> {}", n, out);
                     0
                 }
                 Err(e) => {
@@ -104,7 +108,7 @@ fn main() {
             let runs = only.map(|o| o + 1).unwrap_or(opts.runs as usize);
             match pygen::generate_threads(opts.seed, runs, std::path::Path::new(&out), &seam, only) {
                 Ok(n) => {
-                    println!("pythreadgen: {} cases -> {}", n, out);
+                    crate::outln!("pythreadgen: {} cases -> {}", n, out);
                     0
                 }
                 Err(e) => {
@@ -132,7 +136,7 @@ fn main() {
                 "toksim" => serde_json::to_value(toksim::TokSim.generate(opts.seed, run)).unwrap(),
                 _ => serde_json::Value::Null,
             };
-            println!("{}", serde_json::to_string_pretty(&serde_json::json!({"case": v, "run": run})).unwrap());
+            crate::outln!("{}", serde_json::to_string_pretty(&serde_json::json!({"case": v, "run": run})).unwrap());
             0
         }
         "worldcheck" => {
@@ -145,20 +149,20 @@ fn main() {
                     Ok(Ok(_)) => {}
                     Ok(Err(e)) => {
                         bad += 1;
-                        println!("world {} failed: {}", i, e);
+                        crate::outln!("world {} failed: {}", i, e);
                         if opts.extra.contains_key("dump") {
-                            println!("{}", w.system_csv);
-                            for u in &w.user_csv { println!("--user--\n{}", u); }
+                            crate::outln!("{}", w.system_csv);
+                            for u in &w.user_csv { crate::outln!("--user--\n{}", u); }
                         }
                     }
                     Err(p) => {
                         bad += 1;
-                        println!("world {} panicked: {} {}", i, p.site, p.msg);
+                        crate::outln!("world {} panicked: {} {}", i, p.site, p.msg);
                     }
                 }
                 let _ = std::fs::remove_dir_all(&dir);
             }
-            println!("worlds={} bad={}", opts.runs, bad);
+            crate::outln!("worlds={} bad={}", opts.runs, bad);
             if bad > 0 { 2 } else { 0 }
         }
         x => {
